@@ -33,6 +33,8 @@ type VPCase struct {
 	Req   bool              `json:"required"` // missing: is the point required?
 	Pre   bool              `json:"preset"`   // twin: the field holds a value of its type before the start
 	Xs    []int             `json:"xs"`       // vslice: the configured list
+	Ptr   bool              `json:"ptr"`      // vnest: the nested member is a pointer to a struct
+	X     string            `json:"nx"`       // vnest: absent | 0 | 5 (the nested struct's only field)
 }
 type VPCons struct {
 	K string `json:"k"`
@@ -217,6 +219,29 @@ func runVP(c *VPCase) map[string]any {
 			cons = []VPCons{}
 		}
 		out["x"], out["cons"], out["ok"], out["panic"] = c.Val, cons, ok, p
+	case "vnest":
+		// `required` on a NESTED STRUCT member of a validated, prefix-bound struct: violated when the member is unset
+		type nestE struct {
+			X int `yaml:"x"`
+		}
+		type nestV struct {
+			A int   `yaml:"a"`
+			E nestE `yaml:"e" validate:"required"`
+		}
+		type nestP struct {
+			A int    `yaml:"a"`
+			E *nestE `yaml:"e" validate:"required"`
+		}
+		doc := "s:\n  a: 1\n"
+		if c.X != "absent" {
+			doc += "  e:\n    x: " + c.X + "\n"
+		}
+		t := reflect.TypeOf(nestV{})
+		if c.Ptr {
+			t = reflect.TypeOf(nestP{})
+		}
+		ok, _, p := bindOnce(t, `prefix:"s,validate"`, doc)
+		out["ptr"], out["nx"], out["ok"], out["panic"] = c.Ptr, c.X, ok, p
 	case "vslice":
 		// a list bound through a placeholder; "dive" applies the constraints after it to the elements
 		var cs []string
